@@ -311,6 +311,7 @@ func runC13(c *an.Ctx) {
 		c.Min("C13.d", "successful returns of performRequest", nNil, 1)
 		checkRequestsUnderTimeout(c, "C13.d", perform, request)
 		checkDoneErrSameContext(c, "C13.d", perform)
+		checkEveryAttemptReports(c, "C13.d", perform)
 		// a failed attempt of one peer does not end the request: no way out of performRequest lies on the
 		// path of "this received result failed" — the others are still awaited
 		if recvTerm != "" {
